@@ -158,6 +158,27 @@ func freshTLBTypes(text string) (m map[string]string) {
 	return tlbTypesOf(g)
 }
 
+// freshTLBOrder is the sequence of type names GetTlbTypes of a fresh generator returns for the schema.
+func freshTLBOrder(text string) (names []string) {
+	defer func() {
+		if recover() != nil {
+			names = nil
+		}
+	}()
+	parsed, err := tlbparser.Parse(text)
+	if err != nil {
+		return nil
+	}
+	g := tlbparser.NewGenerator()
+	if _, err := g.GenerateGolangTypes(parsed.Declarations, "", false); err != nil {
+		return nil
+	}
+	for _, t := range g.GetTlbTypes() {
+		names = append(names, t.Name)
+	}
+	return names
+}
+
 // tlbReuseDiff compares what a used generator gives for the schema under test with what a fresh one gives:
 // "generating twice from the same schema gives identical output".
 func tlbReuseDiff(sc *tbSchema, fresh string, r *tlbReuse) string {
@@ -167,6 +188,20 @@ func tlbReuseDiff(sc *tbSchema, fresh string, r *tlbReuse) string {
 	want := freshTLBTypes(sc.text)
 	if want == nil {
 		return ""
+	}
+	// the list of generated types (what abi/parser concatenates into the generated file) comes in the same
+	// order from every fresh generator
+	var first []string
+	for rep := 0; rep < 6; rep++ {
+		order := freshTLBOrder(sc.text)
+		if order == nil {
+			break
+		}
+		if rep == 0 {
+			first = order
+		} else if strings.Join(order, " ") != strings.Join(first, " ") {
+			return fmt.Sprintf("generating twice from the same schema gives different output: GetTlbTypes lists the generated types as\n  %v\nfrom one fresh generator and as\n  %v\nfrom another", first, order)
+		}
 	}
 	for _, t := range sc.sch.Types {
 		if r.tlbTypes[t.Name] != want[t.Name] {
